@@ -22,6 +22,9 @@ remove such a write leave the list unchanged):
                                            name bound to one; list()/tuple()/join()/enumerate()/iter()/next()/zip() of such a value; set.pop();
                                            sorted/min/max with key=id or key=hash.  what = the construct and the variable or callee
   identity-key|<file>|<scope>|id|hash      a call of id() / hash(): object identity or hash used as a value (dict key, ordering)
+  ambient-read|<file>|<scope>|<dotted name> a read of something that is neither an argument nor the file system below a given path: os.getcwd,
+                                           os.path.abspath/realpath/expanduser/expandvars, Path.cwd/home/resolve/absolute, os.environ/getenv, time.*,
+                                           datetime.now/today/utcnow, random.*, uuid.*, os.getpid, os.listdir/scandir/walk, glob.*, locale/platform/socket queries
   antlr|<file>|<Class>.<attr>              class-level objects of the generated lexers/parsers (ATN, DFA list, context cache): shared by
                                            all parser instances and mutated by the antlr4 runtime
 
@@ -38,6 +41,12 @@ WATCH_PREFIX = ("sys.set", "os.chdir", "os.putenv", "os.unsetenv", "os.umask", "
                 "signal.signal", "signal.alarm", "random.seed", "gc.disable", "gc.enable", "gc.set_threshold", "gc.freeze", "faulthandler.",
                 "sys.path.", "sys.modules", "resource.setrlimit", "decimal.setcontext", "decimal.getcontext", "socket.setdefaulttimeout",
                 "tempfile.tempdir", "builtins.")
+AMBIENT_PREFIX = ("os.getcwd", "os.getcwdb", "os.path.abspath", "os.path.realpath", "os.path.expanduser", "os.path.expandvars", "os.environ", "os.getenv",
+                  "time.", "datetime.now", "datetime.today", "datetime.utcnow", "datetime.datetime.now", "datetime.datetime.today", "datetime.datetime.utcnow",
+                  "date.today", "random.", "uuid.", "os.getpid", "os.getppid", "os.listdir", "os.scandir", "os.walk", "glob.", "locale.getlocale",
+                  "locale.getdefaultlocale", "locale.getpreferredencoding", "platform.", "socket.gethostname", "getpass.", "tempfile.", "sys.argv", "sys.stdin",
+                  "Path.cwd", "Path.home", "secrets.")
+AMBIENT_METHODS = {"resolve", "absolute", "expanduser", "cwd", "home"}
 IMMUTABLE_CALLS = {"frozenset", "tuple", "str", "int", "float", "bool", "bytes", "Path", "PurePath", "PurePosixPath", "object", "compile", "field",
                    "TypeVar", "range", "SsbOpCode", "SsbRoutineType"}
 MUTATORS = {"append", "extend", "insert", "update", "clear", "pop", "popitem", "add", "remove", "discard", "setdefault", "sort", "reverse",
@@ -205,6 +214,11 @@ class _Scan(ast.NodeVisitor):
             for kw in node.keywords:
                 if kw.arg == "key" and isinstance(kw.value, ast.Name) and kw.value.id in ("id", "hash"):
                     self.out.add(f"set-iteration|{self.rel}|{self.where()}|{f or 'sort'}:key={kw.value.id}")
+        if f is not None and f.startswith(AMBIENT_PREFIX) and not f.startswith(WATCH_PREFIX):
+            self.out.add(f"ambient-read|{self.rel}|{self.where()}|{f}")
+        elif isinstance(node.func, ast.Attribute) and node.func.attr in AMBIENT_METHODS and not node.args and f is not None and not f.startswith(("self.", "cls.")) \
+                and any(x in f for x in ("Path", "path", "file", "dir")):
+            self.out.add(f"ambient-read|{self.rel}|{self.where()}|.{node.func.attr}()")
         if f in ("id", "hash") and self.fn_depth > 0:
             self.out.add(f"identity-key|{self.rel}|{self.where()}|{f}")
         if f is not None:
@@ -214,6 +228,12 @@ class _Scan(ast.NodeVisitor):
                 self._mut(dotted(node.func.value), "method:" + node.func.attr)
             if isinstance(node.func, ast.Name) and self.module_names.get(f, "").startswith("instance:") and self.fn_depth > 0:
                 self._mut(f, "call")
+        self.generic_visit(node)
+
+    def visit_Subscript(self, node: ast.Subscript) -> None:
+        d = dotted(node.value)
+        if d in ("os.environ", "sys.argv") and isinstance(node.ctx, ast.Load):
+            self.out.add(f"ambient-read|{self.rel}|{self.where()}|{d}[...]")
         self.generic_visit(node)
 
     def visit_With(self, node: ast.With) -> None:
